@@ -375,6 +375,14 @@ Section Spec.
   Definition env_ok : bool := forallb (fun p => tdef_ok (snd p)) E.
 End Spec.
 
+(** 5.6.3 Input Object Field Uniqueness, for every object inside a literal *)
+Fixpoint lit_nodup (l : lit) : bool :=
+  match l with
+  | LList vs => forallb lit_nodup vs
+  | LObject fs => negb (dup_names (map fst fs)) && forallb (fun p => lit_nodup (snd p)) fs
+  | _ => true
+  end.
+
 (** what a Go value in Request.VariableValues satisfies by construction: an [int] is a 64-bit
     integer, a map has each key once *)
 Fixpoint jval_ok (j : jval) : bool :=
